@@ -198,7 +198,7 @@ example : Heap.clone [⟨.rcRefCell, 5, false, 1⟩] ⟨.rcRefCell, 0, false⟩ 
     .ok ([⟨.rcRefCell, 5, false, 2⟩], ⟨.rcRefCell, 0, false⟩) := by rfl
 example : Heap.toDyn [] [⟨.rcRefCell, 5, false, 2⟩] ⟨.rcRefCell, 0, false⟩ =
     .ok ([⟨.rcRefCell, 5, false, 2⟩], ⟨.rcRefCell, 0, true⟩) := by rfl
-example : Heap.toDyn ["std"] [⟨.arcMutex, 5, false, 1⟩] ⟨.arcMutex, 0, false⟩ = .error (.panic .unimpl) := by rfl
+-- (an example through a variant WITHOUT an arm today is in Thm/Lemmas/C17Snapshot.lean)
 
 /-! ### the invariant of reachable heaps -/
 
@@ -1777,8 +1777,6 @@ example : heapRun ["alloc", "std"] (RState.init .rcRefCell)
 example : absRun ["alloc", "std"] (RefCase.init .rcRefCell)
     [.cl 0, .wr 1 7, .dy 1, .dr 0, .dr 1, .inc 2, .rd 2, .live, .dr 2, .live, .rd 0] =
     [.done, .done, .done, .done, .done, .done, .val 8, .flag true, .done, .flag false, .bad] := by rfl
-/-- an `Arc<Mutex>` Reference has no `to_dyn!` arm: both models panic -/
-example : heapRun ["alloc", "std"] (RState.init .arcMutex) [.cl 0, .dy 1, .rd 0] = [.done, .panic .unimpl] := by rfl
 
 /-- `to_dyn!` in its moving form is the abstract "convert a clone, then drop the original": same table shape, same
 cell, no count change -/
